@@ -54,7 +54,20 @@ func genC05Plan(r *sim.Rng, tier string) PayloadPlan {
 			ts += uint32(r.Intn(60))
 		}
 		var it WireItem
-		switch r.Intn(12) {
+		switch r.Intn(15) {
+		case 12:
+			it = WireItem{Type: 9, Gen: "nal_types", N: r.Intn(9), Shape: r.Intn(64)}
+		case 13:
+			it = WireItem{Type: 9, Gen: "seqhdr_annexb", N: r.Intn(24), Shape: r.Intn(64)}
+		case 14:
+			depth := []int{3, 100, 5000, 70000, 400000}[r.Intn(5)]
+			if tier == "thorough" && r.Bool(0.3) {
+				depth = 2000000
+			}
+			it = WireItem{Type: 18, Gen: []string{"meta_nest_arr", "meta_nest_ecma", "meta_objvals", "meta_objvals"}[r.Intn(4)], N: depth, Shape: r.Intn(64)}
+			if it.Gen == "meta_objvals" {
+				it.N = r.Intn(60)
+			}
 		case 0, 1:
 			it = WireItem{Type: []int{8, 9}[r.Intn(2)], Gen: "rand", N: []int{0, 1, 2, 3, 4, 5, 6, 7, 9, 12, 40}[r.Intn(11)]}
 		case 2, 3:
@@ -78,7 +91,7 @@ func genC05Plan(r *sim.Rng, tier string) PayloadPlan {
 		pl.Items = append(pl.Items, it)
 	}
 	for i := 0; i < 1+r.Intn(5); i++ {
-		pl.Joins = append(pl.Joins, PayloadJoin{After: r.Intn(n + 1), Proto: []string{"rtmp", "flv", "wsflv", "ts", "wsts"}[r.Intn(5)]})
+		pl.Joins = append(pl.Joins, PayloadJoin{After: r.Intn(n + 1), Proto: []string{"rtmp", "flv", "wsflv", "ts", "wsts", "rtsp", "rtsp", "rtspudp"}[r.Intn(8)]})
 	}
 	return pl
 }
@@ -111,6 +124,10 @@ func execHostilePayload(k *sim.Kernel, pl PayloadPlan) {
 				case "rtmp":
 					a := actors.NewRtmpClient(k, name, actors.RolePlay, "live", "hp")
 					a.Connect(PortRtmp, 20+ji)
+				case "rtsp", "rtspudp":
+					a := actors.NewRtspClient(k, name, "play", fmt.Sprintf("rtsp://127.0.0.1:%d/live/hp", PortRtsp), j.Proto == "rtsp")
+					a.ClientPort = 22000 + 10*ji
+					a.Connect(PortRtsp, 20+ji)
 				case "flv", "wsflv":
 					a := actors.NewHttpClient(k, name, j.Proto, "/live/hp.flv")
 					a.Connect(PortHttp, 20+ji)
